@@ -73,6 +73,7 @@ world w {{ import j; }}"#
         from_spec("x:F1", "x", f1.clone()),
         from_spec("i@0.2.1 as func", "a:b/i@0.2.1", f0.clone()),
         from_spec("i@1.1.0{f,n{x}}", "a:b/i@1.1.0", i(&[("f", f0.clone()), ("n", i(&[("x", f0.clone())]))])),
+        from_spec("i@0.2.5{g}", "a:b/i@0.2.5", i(&[("g", f0.clone())])),
         // WIT-derived: interfaces that `use` types of other (merged) interfaces
         from_wit("wit j@1.0.0 uses i@0.2.0", &[("ab.wit", &ab("0.2.0")), ("cd.wit", &cd("1.0.0", "0.2.0"))], "w"),
         from_wit("wit j@1.1.0 uses i@0.2.1", &[("ab.wit", &ab("0.2.1")), ("cd.wit", &cd("1.1.0", "0.2.1"))], "w"),
